@@ -166,6 +166,9 @@ class BaseMetricLearner(BaseEstimator, metaclass=ABCMeta):
     self._check_preprocessor()
 
     check_is_fitted(self, ['preprocessor_'])
+    # integer (or boolean) data is converted to float: the learners' sums of
+    # products would otherwise silently overflow for small integer dtypes
+    kwargs.setdefault('dtype', [np.float64, np.float32])
     outs = check_input(X, y,
                        type_of_inputs=type_of_inputs,
                        preprocessor=self.preprocessor_,
